@@ -1,9 +1,13 @@
 (* Properties/C19.v — statements only.  C19: the non-pattern string functions
    and the table functions compute what the manual defines.
    Models: GV.StrLib.Str (IM of lib/stringlib/stringlib.go, luastrings/misc.go,
-   plain find of lib/stringlib/matching.go), GV.StrLib.StrSpec (manual). *)
-From Coq Require Import ZArith List.
-From GV Require Import StrLib.Str StrLib.StrSpec StrLib.StrProofs.
+   plain find of lib/stringlib/matching.go), GV.StrLib.StrSpec (manual §6.4);
+   GV.StrLib.Tab (IM of lib/tablelib/tablelib.go as programs over
+   Len/Get/Set), GV.StrLib.TabSpec (manual §6.6); GV.StrLib.Sort.
+   str_ok s  = "len s < maxint" (representation invariant of a Go string);
+   in64/oin64 = the (optional) argument is an int64.  No other bounds. *)
+From Coq Require Import ZArith List Permutation.
+From GV Require Import StrLib.Str StrLib.StrSpec StrLib.StrProofs StrLib.Tab StrLib.TabSpec StrLib.TabProofs StrLib.Sort.
 Import ListNotations.
 Open Scope Z_scope.
 
@@ -14,6 +18,105 @@ Theorem C19_sub_spec :
 Proof. exact sub_correct. Qed.
 Print Assumptions C19_sub_spec.
 
+Theorem C19_byte_spec :
+  forall s i j, str_ok s -> oin64 i -> oin64 j -> byte_im s i j = Ok (byte_spec s i j).
+Proof. exact byte_correct. Qed.
+Print Assumptions C19_byte_spec.
+
 Theorem C19_len_spec : forall s, len_im s = Ok (len_spec s).
 Proof. exact len_correct. Qed.
 Print Assumptions C19_len_spec.
+
+Theorem C19_char_spec :
+  forall vals, match char_spec vals with
+               | Some b => char_im vals = Ok b
+               | None => exists n, char_im vals = Err (ERange n)
+               end.
+Proof. exact char_correct. Qed.
+Print Assumptions C19_char_spec.
+
+(* string.rep, counts n >= 0: the manual's result whenever it fits a string,
+   the overflow error exactly when it does not (the three wrapped products and
+   the sum are tested exactly). *)
+Theorem C19_rep_spec_partial :
+  forall s n sep, str_ok s -> osep_ok sep -> in64 n -> 0 <= n ->
+  (rep_len s n sep < 2^63 -> rep_im s n sep = Ok (rep_spec s n sep)) /\
+  (2^63 <= rep_len s n sep -> rep_im s n sep = Err EOverflow).
+Proof. exact rep_correct_nonneg. Qed.
+Print Assumptions C19_rep_spec_partial.
+
+(* …and the code as it stands is wrong for n < 0 *)
+Theorem C19_rep_spec_refuted :
+  exists s n, in64 n /\ str_ok s /\ rep_im s n None = Err (ERange 2) /\ rep_spec s n None = [].
+Proof. exact rep_refuted. Qed.
+Print Assumptions C19_rep_spec_refuted.
+
+Theorem C19_find_plain_spec_refuted :
+  exists s p init, str_ok s /\ in64 init /\
+    find_plain_im s p (Some init) = Ok (Some (3, 3)) /\ find_spec s p (Some init) = Some (6, 6).
+Proof. exact find_plain_refuted. Qed.
+Print Assumptions C19_find_plain_spec_refuted.
+
+(* upper/lower are byte-wise and length preserving on ASCII strings, for any
+   unicode.ToUpper/ToLower … *)
+Theorem C19_upper_lower_bytewise :
+  forall um s, is_ascii s = true ->
+  upper_im um s = Ok (upper_spec s) /\ lower_im um s = Ok (lower_spec s) /\
+  length (upper_spec s) = length s /\ length (lower_spec s) = length s.
+Proof. exact upper_lower_bytewise. Qed.
+Print Assumptions C19_upper_lower_bytewise.
+
+(* … and not outside ASCII *)
+Theorem C19_upper_spec_refuted :
+  forall um, um rune_error = rune_error ->
+  exists s, upper_im um s <> Ok (upper_spec s) /\
+            (forall r, upper_im um s = Ok r -> length r = 3%nat) /\ length s = 1%nat.
+Proof. exact upper_refuted. Qed.
+Print Assumptions C19_upper_spec_refuted.
+
+(* table.insert for every table state, every reported length 0 <= L < maxint
+   and every int64 position (or none) *)
+Theorem C19_insert_spec :
+  forall pos v st, 0 <= len1 st < 2^63 - 1 -> oin64 pos ->
+  let L := len1 st in
+  let p := match pos with Some p => p | None => L + 1 end in
+  if insert_pos_ok L p
+  then exists st', run (insert_im pos v) st = (ORet tt, st') /\ keeps2 st st' /\
+                   forall k, m1 st' k = insert_spec (m1 st) L p v k
+  else run (insert_im pos v) st = (OFail TERange2, st).
+Proof. exact insert_correct. Qed.
+Print Assumptions C19_insert_spec.
+
+Theorem C19_remove_spec :
+  forall pos st, 0 <= len1 st < 2^63 - 1 -> oin64 pos ->
+  let L := len1 st in
+  let p := match pos with Some p => p | None => L end in
+  if remove_pos_ok L p
+  then exists st', run (remove_im pos) st = (ORet (m1 st p), st') /\ keeps2 st st' /\
+                   forall k, m1 st' k = remove_spec (m1 st) L p k
+  else run (remove_im pos) st = (OFail TERange2, st).
+Proof. exact remove_correct. Qed.
+Print Assumptions C19_remove_spec.
+
+(* table.move for ALL int64 f, e, t, onto the same table (overlap in either
+   direction) or another one: the simultaneous assignment, or an error that
+   changes nothing exactly when count / last index are not representable *)
+Theorem C19_move_spec :
+  forall f e t d st, in64 f -> in64 e -> in64 t ->
+  if move_ok (tid_eqb d T1) f e t
+  then exists st', run (move_im f e t d) st = (ORet tt, st') /\ lens_kept st st' /\ other_kept st st' d /\
+                   forall k, dst_of st' d k = move_spec (m1 st) (dst_of st d) f e t k
+  else exists err, run (move_im f e t d) st = (OFail err, st).
+Proof. exact move_correct. Qed.
+Print Assumptions C19_move_spec.
+
+(* table.sort: any terminating procedure that only calls Less/Swap in range,
+   any comparison (inconsistent, changing, failing): a permutation, nothing
+   outside 1..n touched *)
+Theorem C19_sort_is_permutation :
+  forall algo, (forall n, in_range n (algo n)) ->
+  forall n cmp m,
+  Permutation (elems (fst (sort_im algo n cmp m)) n) (elems m n) /\
+  forall k, (k < 1 \/ Z.of_nat n < k) -> fst (sort_im algo n cmp m) k = m k.
+Proof. exact sort_is_permutation. Qed.
+Print Assumptions C19_sort_is_permutation.
